@@ -385,6 +385,9 @@ impl ModeSpec {
 #[derive(Clone, Copy, Debug, PartialEq)]
 enum MpEnd {
     Complete,
+    /// `complete()` called a second time on the same uploader (a retry after a lost
+    /// acknowledgement): the reference commits the same parts again
+    CompleteTwice,
     Abort,
     Drop,
 }
@@ -904,6 +907,8 @@ impl World {
                         Payload { pat: rng.below(3) as u8, size, cuts }
                     })
                     .collect();
+                // (MpEnd::CompleteTwice is not generated: calling complete() on an already completed upload is
+                // implementation-defined in the object_store contract, see DESIGN 23.2b)
                 let end = *rng.pick(&[MpEnd::Complete, MpEnd::Complete, MpEnd::Complete, MpEnd::Abort, MpEnd::Drop]);
                 Op::Multipart { k: self.pick_key(rng, false), parts, end, defer: rng.chance(1, 3), attrs: rng.chance(1, 4) }
             }
@@ -1169,18 +1174,39 @@ impl World {
         let mut up = self.uploads.remove(idx);
         let k = up.k;
         match up.end {
-            MpEnd::Complete => {
+            MpEnd::Complete | MpEnd::CompleteTwice => {
                 let a = up.w.complete().await;
                 let b = up.r.complete().await;
                 st.count(&format!("mp:complete:{}", res_kind(&a)));
                 st.count("oracle_diff_multipart");
+                let mut both_ok = false;
                 match (a, b) {
                     (Ok(res), Ok(_)) => {
-                        self.register(st, k, Bytes::from(up.data), up.chunk, Some(res.e_tag), "multipart complete").await;
+                        both_ok = true;
+                        self.register(st, k, Bytes::from(up.data.clone()), up.chunk, Some(res.e_tag), "multipart complete").await;
                     }
                     (a, b) => {
                         if a.is_ok() != b.is_ok() {
                             self.viol(st, "diff/multipart_complete", json!({"key": KEYS[k], "wrapper": res_kind(&a), "reference": res_kind(&b)}));
+                        }
+                    }
+                }
+                if both_ok && up.end == MpEnd::CompleteTwice && !self.failed {
+                    let a = up.w.complete().await;
+                    let b = up.r.complete().await;
+                    st.count(&format!("mp:second_complete:{}", res_kind(&a)));
+                    st.count("oracle_diff_multipart");
+                    match (a, b) {
+                        (Ok(res), Ok(_)) => {
+                            self.register(st, k, Bytes::from(up.data), up.chunk, Some(res.e_tag), "second multipart complete of one upload").await;
+                        }
+                        (a, b) => {
+                            if a.is_ok() != b.is_ok() {
+                                self.viol(st, "diff/multipart_second_complete", json!({"key": KEYS[k], "wrapper": res_kind(&a), "reference": res_kind(&b)}));
+                            } else {
+                                // both refuse: the key keeps the first commit
+                                st.count("mp:second_complete_refused_by_both");
+                            }
                         }
                     }
                 }
